@@ -95,7 +95,11 @@ class BaseLinker(SolverMixin, ModelInterface):
             for id_ in identifiers:
                 # Check spans are identical
                 comparator = self.__dict__['submodels'][id_]
-                if comparator.span != base.span:
+                # (compare element by element: `!=` on NumPy arrays or `pandas`
+                # indexes is itself an array, with no single truth value)
+                if len(comparator.span) != len(base.span) or any(
+                    x != y for x, y in zip(comparator.span, base.span)
+                ):
                     raise InitialisationError(
                         f'''\
 Spans of submodels differ:
